@@ -160,6 +160,17 @@ pub fn stamp_timeliness(log: &[L]) -> Vec<Finding> {
 /// C17: stack machine over the tracker stream: every end closes the innermost open start of the same kind and subject.
 /// Returns findings and the maximum nesting depth.
 pub fn nesting(events: &[Ev], aborted_ok: bool) -> (Vec<Finding>, usize) {
+  let marked: Vec<Option<Ev>> = events.iter().cloned().map(Some).collect();
+  nesting_marked(&marked, aborted_ok)
+}
+
+/// Same over a whole log: `L::Aborted` (a build cut by a panic) is the only place where unclosed starts are tolerated.
+pub fn nesting_log(log: &[L]) -> (Vec<Finding>, usize) {
+  let marked: Vec<Option<Ev>> = log.iter().filter_map(|l| match l { L::E(e) => Some(Some(e.clone())), L::Aborted => Some(None), _ => None }).collect();
+  nesting_marked(&marked, false)
+}
+
+fn nesting_marked(events: &[Option<Ev>], aborted_ok: bool) -> (Vec<Finding>, usize) {
   #[derive(Debug, PartialEq, Clone)]
   enum Open { Build, Require(TaskId, String), Read(ResId, String), Write(ResId, String), CheckTask(TaskId, String, String), CheckRes(ResId, String, String), Exec(TaskId), SchedTask(TaskId), CheckReq(TaskId, String, String), SchedRes(ResId), CheckRead(TaskId, String, String) }
   let mut stack: Vec<Open> = vec![];
@@ -173,6 +184,7 @@ pub fn nesting(events: &[Ev], aborted_ok: bool) -> (Vec<Finding>, usize) {
     }
   };
   for (i, ev) in events.iter().enumerate() {
+    let Some(ev) = ev else { stack.clear(); continue; };
     match ev {
       Ev::BuildStart => {
         if !stack.is_empty() && !aborted_ok { out.push(f("c17-nesting", format!("event #{}: build_start while {:?} are open", i, stack))); }
